@@ -64,9 +64,14 @@ async def check_case(case, rec, ctx):
 
 def subchecks(tier):
     big = tier == "thorough"
-    return [SubCheck("orphans", check_case,
-                     strategy=lambda: C.clean_histories(with_tool=False),
-                     examples=160_000 if big else 4_000)]
+    return [
+        SubCheck("orphans", check_case,
+                 strategy=lambda: C.clean_histories(with_tool=False),
+                 examples=120_000 if big else 3_000),
+        SubCheck("orphans_optional_focus", check_case,
+                 strategy=lambda: C.clean_histories(with_tool=False, focus="optional"),
+                 examples=60_000 if big else 1_500),
+    ]
 
 
 MANIFEST = {
